@@ -7,6 +7,8 @@ pub enum Sym {
     Lit(&'static str, &'static str),
     /// n fresh letters (a, b, c, ... in order of occurrence)
     Letters(&'static str, u8),
+    /// a pattern in which every '_' stands for one fresh letter
+    Pat(&'static str, &'static str),
 }
 
 impl Sym {
@@ -14,12 +16,14 @@ impl Sym {
         match self {
             Sym::Lit(n, _) => n,
             Sym::Letters(n, _) => n,
+            Sym::Pat(n, _) => n,
         }
     }
     pub fn describe(&self) -> String {
         match self {
             Sym::Lit(n, s) => format!("{}={}", n, s.escape_default()),
             Sym::Letters(n, k) => format!("{}=<{} fresh letter(s)>", n, k),
+            Sym::Pat(n, p) => format!("{}={} (each _ a fresh letter)", n, p.escape_default()),
         }
     }
 }
@@ -77,6 +81,13 @@ pub const SLASH: Sym = Sym::Lit("SLASH", "/");
 pub const GT: Sym = Sym::Lit("GT", ">");
 pub const STAR: Sym = Sym::Lit("STAR", "*");
 
+/// whole words, each followed by one space (for the word-sequence spaces)
+pub const WD1: Sym = Sym::Pat("WD1", "_ ");
+pub const WD2: Sym = Sym::Pat("WD2", "__ ");
+pub const WD3: Sym = Sym::Pat("WD3", "___ ");
+pub const WD5: Sym = Sym::Pat("WD5", "_____ ");
+pub const WDH: Sym = Sym::Pat("WDH", "_-_ ");
+
 pub fn menu(alpha: &[Sym]) -> Vec<String> {
     alpha.iter().map(|s| s.describe()).collect()
 }
@@ -92,6 +103,16 @@ pub fn build_into(seq: &[u8], alpha: &[Sym], out: &mut String) {
                 for _ in 0..n {
                     out.push((b'a' + letter % 26) as char);
                     letter += 1;
+                }
+            }
+            Sym::Pat(_, p) => {
+                for c in p.chars() {
+                    if c == '_' {
+                        out.push((b'a' + letter % 26) as char);
+                        letter += 1;
+                    } else {
+                        out.push(c);
+                    }
                 }
             }
         }
